@@ -180,7 +180,7 @@ package server
 //@   ensures [C01:fold] old(smhas(s.documents, params.TextDocument.URI)) && typeis(old(smget(s.documents, params.TextDocument.URI)), string) ==> smhas(s.documents, params.TextDocument.URI) && smget(s.documents, params.TextDocument.URI) == box(docFold(as(old(smget(s.documents, params.TextDocument.URI)), string), params.ContentChanges, len(params.ContentChanges)))
 //@   ensures [C01:absent] !old(smhas(s.documents, params.TextDocument.URI)) ==> !smhas(s.documents, params.TextDocument.URI)
 //@   modifies s.documents
-//@   modifies s.workspace.cachedFormats, s.workspace.cachedCommodities, s.workspace.cachedAccounts, s.workspace.resolved, s.workspace.includeGraph[*], s.workspace.reverseGraph[*]
+//@   modifies s.workspace.cachedFormats, s.workspace.cachedCommodities, s.workspace.cachedAccounts, s.workspace.resolved, s.workspace.resolved.Primary, s.workspace.resolved.PrimaryPath, s.workspace.resolved.FileOrder, s.workspace.resolved.Files[*], s.workspace.includeGraph[*], s.workspace.reverseGraph[*]
 //@   modifies s.workspace.index.accountCounts[*], s.workspace.index.payeeCounts[*], s.workspace.index.commodityCounts[*], s.workspace.index.tagCounts[*], s.workspace.index.dateCounts[*], s.workspace.index.payeeTemplates[*], s.workspace.index.fileIndexes[*], s.workspace.index.tagValueCounts[*], s.workspace.index.tagValueCounts[*][*], s.workspace.index.transactionsByKey[*]
 //@   modifies s.workspace.index.accounts, s.workspace.index.payees, s.workspace.index.commodities, s.workspace.index.tags, s.workspace.index.tagValues, s.workspace.index.dates
 //@   loop 1 invariant 0 - 1 <= rangeindex && rangeindex <= len(params.ContentChanges) - 1
